@@ -583,6 +583,20 @@ func runC02(w *fw.W) {
 			}
 		}
 	})
+	// numeric literal operands (a minus sign written in a number belongs to the number)
+	runBatch("infix over numeric literals", func(emit func(item)) {
+		lits := []string{"2", "-2", "2.5", "-2.5", "0", "-1"}
+		for _, o1 := range ops {
+			for _, x := range lits {
+				for _, y := range lits {
+					t := c02climb([]*pexpr{atom(x), atom(y)}, []string{o1.op})
+					emit(item{x + " " + o1.op + " " + y, t.print(true, lvIf), t.render(), fmt.Sprintf("literal-operands|L%d", o1.lv), "literal_operands"})
+					t3 := c02climb([]*pexpr{atom(x), atom("b"), atom(y)}, []string{o1.op, "**"})
+					emit(item{x + " " + o1.op + " b ** " + y, t3.print(true, lvIf), t3.render(), fmt.Sprintf("literal-operands|L%d|**", o1.lv), "literal_operands"})
+				}
+			}
+		}
+	})
 	// triples, one batch per first operator
 	for _, o1 := range ops {
 		o1 := o1
